@@ -55,7 +55,7 @@ T = [
  ("C02-backquote-comment-close", W("file","bash","i0","`a #c`\n", c=1)),
  ("C02-backquote-heredoc-close", W("file","bash","i0","`cat <<EOF\nx\nEOF`\n", c=1)),
 ]
-FIXED = ['C01-command-first-newline', 'C01-comment-backslash-newline', 'C01-dashhdoc-inner-tab', 'C01-dashhdoc-vt-ff', 'C01-heredoc-pipe-test-let', 'C01-minify-empty-block', 'C01-minify-last-case-op', 'C01-single-heredoc-buried', 'C01-single-missing-semicolon', 'C01-slice-offset-incdec', 'C01-stale-wrotesemi-keyword', 'C01-tabwriter-vt-ff', 'C01-zsh-minify-short-subscript', 'C01-zsh-special-param-subscript', 'C01-zsh-subshell-anon-func', 'C02-dashhdoc-reindent']
+FIXED = ['C01-command-first-newline', 'C01-comment-backslash-newline', 'C01-dashhdoc-inner-tab', 'C01-dashhdoc-vt-ff', 'C01-heredoc-pipe-test-let', 'C01-minify-empty-block', 'C01-minify-last-case-op', 'C01-single-heredoc-buried', 'C01-single-missing-semicolon', 'C01-slice-offset-incdec', 'C01-stale-wrotesemi-keyword', 'C01-tabwriter-vt-ff', 'C01-zsh-minify-short-subscript', 'C01-zsh-modifier-tab', 'C01-zsh-special-param-subscript', 'C01-zsh-subshell-anon-func', 'C02-dashhdoc-reindent']
 # usage: l4_witnesses.py C01 known|fixed
 pid = sys.argv[1]
 which = sys.argv[2] if len(sys.argv) > 2 else "known"
